@@ -2,7 +2,7 @@
 # usage: tools/confirm_queue.sh "<id> <dir> <letter>" ...   runs keep_mutant for each, at most 6 suites at a time
 for spec in "$@"; do
   set -- $spec
-  while [ $(pgrep -fc "pytest -q -p no:cacheprovider --timeout=900 --continue-on-collection-errors -x") -ge 6 ]; do sleep 30; done
+  while [ $(pgrep -fc "pytest -q -p no:cacheprovider --timeout=900 --continue-on-collection-errors -x") -ge 5 ]; do sleep 30; done
   /verif/tools/keep_mutant.sh $1 $2 $3
   sleep 5
 done
